@@ -1,3 +1,3 @@
 #!/bin/sh
 # tools/sany.sh <file.tla>: parse with the shared library on the path
-exec java -DTLA-Library=/verif/spec/lib -cp /opt/veriftools/tla/tla2tools.jar:/opt/veriftools/tla/CommunityModules-deps.jar tla2sany.SANY "$@"
+exec java -DTLA-Library=$(ls -d /verif/spec/*/ | tr "\n" ":") -cp /opt/veriftools/tla/tla2tools.jar:/opt/veriftools/tla/CommunityModules-deps.jar tla2sany.SANY "$@"
